@@ -16,6 +16,7 @@ func init() { Registry["C12"] = C12 }
 
 func C12(c *Ctx) {
 	r := c.R
+	defer c12RestoredMaps(c)
 	r.Explain = "Structural clauses of 'allocations survive restart and replication unchanged': on reload and on a remote announcement every call that mutates the in-memory allocator is handed the prefix parsed from the stored/announced record; the result of applying an announcement is examined; store and memory halves of allocate/release are ordered and rolled back so a store failure leaves both in agreement and form one critical section; MarshalJSON/UnmarshalJSON of each allocator use identical field sets and restore every field the query methods read; reverse indexes are evicted when a record moves.  Enumeration-order effects beyond the provenance rule and crash points are not decided."
 	r.Rule("C12.P1.announcedValueUsed", "in loadAllocations and handleRemoteChange every call that binds a subscriber in the in-memory allocator takes the prefix parsed from the stored/announced record", 4)
 	r.Rule("C12.P2.storeMemoryAgreement", "a failed store write rolls the in-memory acquire back; a release removes the store record before freeing memory; both halves run under one hold of the allocator's lock", 9)
